@@ -129,6 +129,20 @@ Example C03_shadowed_example :
   r = Err EType /\ bitems (sget s' kx) = [Int 10] ++ [Int 2] ++ [Int 3].
 Proof. vm_compute. repeat split. Qed.
 
+(* REFUTED (defect D39, known finding): "after a request each variable has the     *)
+(* bindings it had, changed only by the definitions the program executed" fails of  *)
+(* the faithful model for a definition executed while the symbol has temporary      *)
+(* bindings and no global value: set_global writes the bottom slot, which is then   *)
+(* the outermost TEMPORARY binding - inside the let the variable reads as the       *)
+(* function, and once the let is left the definition is gone.  (The depth is        *)
+(* restored, as C03_request_balanced says; the content of the slot is wrong.)       *)
+Example C03_executed_definition_persists_refuted :
+  let s0 := init_state [] None in
+  let '(r1, s1) := eval_string F0 60 (s2t "(let ((zq 17)) (eval (list 'defun 'zq nil 42)) (equal zq 17))") s0 in
+  r1 = Ok Nil /\ var_items s1 (s2t "zq") = [] /\
+  fst (eval_string F0 60 (s2t "(zq)") s1) = Err EType.
+Proof. vm_compute. repeat split. Qed.
+
 Check C03_request_balanced :
   forall (F : fops) (fuel : nat) (t : text) (s s' : st) (r : res sx),
     eval_string F fuel t s = (r, s') -> r <> Fuel ->
